@@ -5,11 +5,52 @@ import (
 	"go/token"
 	"go/types"
 
-	"golang.org/x/tools/go/cfg"
-
 	"verif/internal/core"
 	"verif/internal/flow"
 )
+
+// C15 — MQTT delivery (QoS fan-out, pending/resend bookkeeping, PUBACK).
+//
+// Layout: c15.go (entry, helpers shared with other properties), c15_env.go (anchors resolved by
+// role, value-origin resolution, call-site index), c15_fanout.go (R-C15-1/2), c15_session.go
+// (R-C15-3), c15_handler.go (R-C15-4), c15_ext.go (R-C15-3 queue writers, R-C15-5, R-C15-6).
+//
+// Robustness (fourth follow-up): every anchor is found by what it does (types of receiver,
+// parameters and fields; what it calls / stores / sends), the current name is only a tie-breaker. A
+// rule looks at the anchored function together with the same-package helpers it calls (reach +
+// inlining in the flow engine), values are followed through locals, parameters and results
+// (c15trace), callees through method values and closures held by locals (c15callee, c15liftLit),
+// and a helper inlined into its caller is recognised by the statement it consisted of (a plain send
+// on the client's queue = writePacket, delete from pending = puback, a bool method of the limiter
+// field = checkPublishLimit, the retransmission written out in the resend loop = doResend).
+// What was tried (out/variants*.json of the robustness pass; the single-fragment ones are kept in
+// selftest/mutants/C15.json):
+//   preserving, all silent: if-chain ↔ switch, renamed locals, named local for an id / a
+//   comparison, early continue / return, inverted nesting, tagless switch (r1); per-subscriber body
+//   of the fan-out in a helper that returns instead of continue, the whole loop in a helper taking
+//   the map, client passed to a publishing helper, delete / ack / loop start / table delete in a
+//   helper under the same lock, bool helpers (qosAllows, needsAck, stillPending), Puback built by a
+//   constructor, limiter as a combinator (r2); key-only range + map index, index loop over a
+//   snapshot of the queue, single-value lookup + nil test, defer ↔ explicit unlock, method value /
+//   closure for doResend and writePacket, named result + bare return, new(Session) (r3); dispatch
+//   table and handlers in another file, every unexported anchor (functions, fields, table) renamed,
+//   the publish entry a named function, publish split into tryWritePacket + addPending, doResend
+//   split into firstPending + resendPacket, publish's signature reordered (r4); writePacket,
+//   doResend, puback, checkPublishLimit, getClient inlined into their callers.
+//   mutants, each reported also on the refactored forms (rule in brackets): return/break in the
+//   fan-out loop, break when the helper skipped [1]; comparison inverted / strict / operands of the
+//   predicate swapped, helper skipping connected clients [2]; write before the pending store,
+//   store without queue append, blocking QoS0 send, unlocked puback / helper after the unlock /
+//   other key, resend without the pending test, with another / constant / index id, unlocked
+//   resend write, loop left after a tick, doResend never called, queue trimmed in puback, nobody
+//   deletes from pending [3]; PUBACK without / with another / a shared id, wrong level acknowledged,
+//   processing although the pipeline rejected, limiter bypassed / its result ignored, entry
+//   wrapping another handler [4]; resend loop not started (also in helper form) [5]; client table
+//   entry deleted unconditionally (also in helper form) [6].
+//   Honest exit 2 (undecided) instead of a verdict: publish called from a function literal, a
+//   helper on the way called by go/defer/nested in an expression, the fan-out ranging over
+//   something else than the subscriber map (e.g. sorted keys), several callers of the
+//   per-subscriber helper, a role that two functions fit and no name decides.
 
 const mq = "pkg/object/mqttproxy"
 
@@ -92,213 +133,7 @@ func labelOf(root ast.Node, stmt ast.Stmt) string {
 	return name
 }
 
-func c15(c *core.Ctx) string {
-	c.Rule("R-C15-1", "fan-out loop of the subscriber delivery function has no early exit: inside the range loop over the subscriber map no return/break/goto/panic leaves the loop; every iteration either publishes, or skips because subscription QoS < message QoS, or because the client is not connected")
-	c.Rule("R-C15-2", "per-subscriber skip condition is exactly (subscription QoS < message QoS): publish is reached only with that atom false, and an iteration without publish has it true or a nil client")
-	c.Rule("R-C15-3", "QoS1 bookkeeping in Session.publish/puback/doResend: pending[id] store and queue append precede writePacket under the session lock; QoS0 send is non-blocking; puback deletes pending[MessageID] under the lock; doResend re-sends only ids still pending, with the same id, under the lock; the resend loop runs doResend on every tick until done")
-	c.Rule("R-C15-4", "PUBACK echo and handler order: processPublish's QoS1 branch writes a Puback whose MessageID is the incoming packet's; the publish entry of the packet table runs limiter, then pipeline, then processPublish; pipelineWrapper calls fn unless the pipeline failed")
-	c.NotDecided = []string{"socket-level delivery", "timing of retransmission", "queue-full drops of QoS0 copies", "findSubscribers correctness (C14)"}
-
-	c.Rule("R-C15-5", "every live session has a resend loop: each function that builds a Session starts `go s.backgroundResendPending()` on every path that returns the session (or each of its direct callers does so for the returned session)")
-	c.Rule("R-C15-6", "a registered client is removed from the broker's client table only when it is known to be disconnected (or has just been closed, or no entry exists): a live connection must stay addressable for delivery")
-	c15FanOut(c)
-	c15Session(c)
-	c15Puback(c)
-	c15ResendLoop(c)
-	c15Registry(c)
-	c15QueueWriters(c)
-	return "Static shape rules on the MQTT delivery path: the fan-out loop cannot be left early and publishes iff subQoS >= qos and the client is connected (path-sensitive, all paths of sendMsgToClient); QoS1 pending bookkeeping precedes the write under the session lock; PUBACK carries the incoming id; handler order limiter→pipeline→process. Not decided: socket delivery, retransmission timing, queue-full drops."
-}
-
-func c15FanOut(c *core.Ctx) {
-	f := fn(c, mq, "Broker", "sendMsgToClient")
-	if f == nil {
-		return
-	}
-	cons := fname(mq, "Broker", "sendMsgToClient")
-	// subject: the range loop containing the call to (*Session).publish
-	pubs := callsTo(f, f.Body, false, "(*"+mq+".Session).publish")
-	if !c.RequireCount("R-C15-1", "Session.publish call sites in sendMsgToClient", len(pubs), 1) {
-		return
-	}
-	pub := pubs[0]
-	loops := enclosingLoops(f.Body, pub)
-	if len(loops) == 0 {
-		c.Violate("R-C15-1", cons+"|fan-out loop", pos(c, pub), "Session.publish is not called from a loop over the subscribers")
-		return
-	}
-	loop, ok := loops[len(loops)-1].(*ast.RangeStmt)
-	if !ok {
-		c.Undecide("R-C15-1", cons+"|fan-out loop", pos(c, pub), "innermost loop around publish is not a range statement")
-		return
-	}
-	// the ranged value must be the result of findSubscribers
-	subjOK := false
-	if id, ok := ast.Unparen(loop.X).(*ast.Ident); ok {
-		obj := f.Info.Uses[id]
-		ast.Inspect(f.Body, func(n ast.Node) bool {
-			if as, ok := n.(*ast.AssignStmt); ok && len(as.Rhs) == 1 {
-				if call, ok := as.Rhs[0].(*ast.CallExpr); ok && calleeIs(f, call, "(*"+mq+".TopicManager).findSubscribers") {
-					if lid, ok := as.Lhs[0].(*ast.Ident); ok && (f.Info.Defs[lid] == obj || f.Info.Uses[lid] == obj) {
-						subjOK = true
-					}
-				}
-			}
-			return true
-		})
-	}
-	if !subjOK {
-		c.Undecide("R-C15-1", cons+"|fan-out loop", pos(c, loop), "loop does not range over the result of findSubscribers")
-		return
-	}
-	exits := breaksOut(f, loop, labelOf(f.Body, loop))
-	if len(exits) == 0 {
-		c.Discharge("R-C15-1", cons+"|no early exit", pos(c, loop), "no return/break/goto/panic inside the subscriber loop")
-	} else {
-		for _, x := range exits {
-			c.Violate("R-C15-1", cons+"|no early exit", pos(c, x),
-				"a statement inside the loop over subscribers leaves the loop: one subscriber silently suppresses delivery to all subscribers visited after it (map order)")
-		}
-	}
-
-	// R-C15-2 + coverage half of R-C15-1 (path-sensitive)
-	subQ, _ := loop.Value.(*ast.Ident)
-	var qosArg *ast.Ident
-	if len(pub.Args) == 4 {
-		qosArg, _ = ast.Unparen(pub.Args[3]).(*ast.Ident)
-	}
-	if subQ == nil || qosArg == nil {
-		c.Undecide("R-C15-2", cons+"|qos comparison", pos(c, loop), "cannot identify subscription QoS (range value) or message QoS (publish argument)")
-		return
-	}
-	ltKey := "lt:" + f.Render(subQ) + "<" + f.Render(qosArg)
-	type bad struct {
-		st  *flow.State
-		why string
-	}
-	var bads []bad
-	iterations := 0
-	res := analyze(c, f, flow.Config{
-		OnBlock: func(st *flow.State, b *cfg.Block) {
-			if b.Stmt != loop {
-				return
-			}
-			switch b.Kind {
-			case cfg.KindRangeBody:
-				st.Set("ev:inbody", flow.True)
-				st.Set("ev:published", flow.False)
-				st.Set("ev:clientnil", flow.False)
-			case cfg.KindRangeLoop:
-				if st.Is("ev:inbody", flow.True) {
-					iterations++
-					if !st.Is("ev:published", flow.True) && !st.Is(ltKey, flow.True) && !st.Is("ev:clientnil", flow.True) {
-						bads = append(bads, bad{st, "an iteration ends without publishing although subQoS >= qos and the client is connected"})
-					}
-				}
-				st.Set("ev:inbody", flow.Unknown)
-				st.Set("ev:published", flow.Unknown)
-				st.Set("ev:clientnil", flow.Unknown)
-			}
-		},
-		OnCall: func(st *flow.State, call *ast.CallExpr, callee types.Object, deferred bool) {
-			if call == pub {
-				st.Set("ev:published", flow.True)
-			}
-		},
-		AfterAssume: func(st *flow.State, cond ast.Expr, outcome bool) {
-			// client == nil learned: remember it as an event (survives later calls)
-			for _, k := range st.Facts() {
-				if len(k) > 4 && k[:4] == "nil:" && k[len(k)-2:] == "=T" {
-					// only the variable assigned from getClient
-					_ = k
-				}
-			}
-		},
-		NoHavoc: true,
-	})
-	if res == nil {
-		return
-	}
-	// client nil-ness: the receiver chain of publish is client.session.publish; find root ident
-	var clientKey string
-	if sel, ok := ast.Unparen(pub.Fun).(*ast.SelectorExpr); ok {
-		x := sel.X
-		for {
-			if s2, ok := ast.Unparen(x).(*ast.SelectorExpr); ok {
-				x = s2.X
-				continue
-			}
-			break
-		}
-		if id, ok := ast.Unparen(x).(*ast.Ident); ok {
-			clientKey = f.NilKey(id)
-		}
-	}
-	// re-run with clientnil event derived from the nil fact at loop end
-	bads = nil
-	iterations = 0
-	res = analyze(c, f, flow.Config{
-		OnBlock: func(st *flow.State, b *cfg.Block) {
-			if b.Stmt != loop {
-				return
-			}
-			switch b.Kind {
-			case cfg.KindRangeBody:
-				st.Set("ev:inbody", flow.True)
-				st.Set("ev:published", flow.False)
-			case cfg.KindRangeLoop:
-				if st.Is("ev:inbody", flow.True) {
-					iterations++
-					if !st.Is("ev:published", flow.True) && !st.Is(ltKey, flow.True) && !(clientKey != "" && st.Is(clientKey, flow.True)) {
-						bads = append(bads, bad{st, "an iteration ends without publishing although subQoS >= qos and the client is connected"})
-					}
-				}
-				st.Set("ev:inbody", flow.Unknown)
-				st.Set("ev:published", flow.Unknown)
-				// facts of the finished iteration are dead
-				st.Set(ltKey, flow.Unknown)
-				if clientKey != "" {
-					st.Set(clientKey, flow.Unknown)
-				}
-			}
-		},
-		OnCall: func(st *flow.State, call *ast.CallExpr, callee types.Object, deferred bool) {
-			if call == pub {
-				st.Set("ev:published", flow.True)
-			}
-		},
-		NoHavoc: true,
-	})
-	if res == nil {
-		return
-	}
-	c.RequireCount("R-C15-2", "abstract loop iterations explored", iterations, 1)
-	// publish only with subQoS >= qos established
-	okPub := true
-	n := 0
-	for _, st := range res.At[pub] {
-		n++
-		if !st.Is(ltKey, flow.False) {
-			okPub = false
-			c.Violate("R-C15-2", cons+"|publish guarded by subQoS>=qos", pos(c, pub),
-				"Session.publish is reachable without the test (subscription QoS < message QoS) having failed: fact "+ltKey+" is "+st.Get(ltKey).String(), witness(st)...)
-			break
-		}
-	}
-	if n == 0 {
-		c.Violate("R-C15-2", cons+"|publish guarded by subQoS>=qos", pos(c, pub), "Session.publish is unreachable in the subscriber loop")
-	} else if okPub {
-		c.Discharge("R-C15-2", cons+"|publish guarded by subQoS>=qos", pos(c, pub), sprintf("all %d abstract states reaching publish have %s = F", n, ltKey))
-	}
-	if len(bads) == 0 {
-		c.Discharge("R-C15-2", cons+"|skip only when subQoS<qos or client offline", pos(c, loop), sprintf("%d abstract iteration ends checked", iterations))
-	} else {
-		c.Violate("R-C15-2", cons+"|skip only when subQoS<qos or client offline", pos(c, loop), bads[0].why, witness(bads[0].st)...)
-	}
-}
-
-// lockHeldConfig returns hooks tracking "ev:locked" for calls X.Lock()/X.Unlock() (also
-// deferred) on the receiver's embedded mutex.
+// lockEvents tracks "ev:locked" for calls X.Lock()/X.Unlock() (also deferred) on any mutex.
 func lockEvents(f *flow.Func, st *flow.State, call *ast.CallExpr, callee types.Object, deferred bool) {
 	fnObj, ok := callee.(*types.Func)
 	if !ok || fnObj.Pkg() == nil || fnObj.Pkg().Path() != "sync" {
@@ -309,355 +144,6 @@ func lockEvents(f *flow.Func, st *flow.State, call *ast.CallExpr, callee types.O
 		st.Set("ev:locked", flow.True)
 	case "Unlock", "RUnlock":
 		st.Set("ev:locked", flow.False)
-	}
-}
-
-func c15Session(c *core.Ctx) {
-	// ---- Session.publish
-	if f := fn(c, mq, "Session", "publish"); f != nil {
-		cons := fname(mq, "Session", "publish")
-		pendingF := structField(c, mq, "Session", "pending")
-		queueF := structField(c, mq, "Session", "pendingQueue")
-		writes := callsTo(f, f.Body, false, "(*"+mq+".Client).writePacket")
-		c.RequireCount("R-C15-3", "writePacket call sites in Session.publish", len(writes), 1)
-		isFieldSel := func(e ast.Expr, fld *types.Var) bool {
-			sel, ok := ast.Unparen(e).(*ast.SelectorExpr)
-			if !ok {
-				return false
-			}
-			s := f.Info.Selections[sel]
-			return s != nil && s.Obj() == fld
-		}
-		res := analyze(c, f, flow.Config{
-			NoHavoc: true,
-			OnNode: func(st *flow.State, n ast.Node) {
-				as, ok := n.(*ast.AssignStmt)
-				if !ok {
-					return
-				}
-				for _, l := range as.Lhs {
-					if ix, ok := ast.Unparen(l).(*ast.IndexExpr); ok && isFieldSel(ix.X, pendingF) {
-						st.Set("ev:pendingStored", flow.True)
-					}
-					if isFieldSel(l, queueF) {
-						st.Set("ev:queued", flow.True)
-					}
-				}
-			},
-			OnCall: func(st *flow.State, call *ast.CallExpr, callee types.Object, deferred bool) {
-				lockEvents(f, st, call, callee, deferred)
-			},
-		})
-		if res != nil {
-			for _, w := range writes {
-				ok := true
-				var bad *flow.State
-				why := ""
-				for _, st := range res.At[w] {
-					switch {
-					case !st.Is("ev:pendingStored", flow.True):
-						ok, bad, why = false, st, "pending[id] is not stored before the packet is written (a lost packet would never be retransmitted)"
-					case !st.Is("ev:queued", flow.True):
-						ok, bad, why = false, st, "the id is not appended to pendingQueue before the packet is written"
-					case !st.Is("ev:locked", flow.True):
-						ok, bad, why = false, st, "session lock not held at writePacket"
-					}
-				}
-				if len(res.At[w]) == 0 {
-					ok, why = false, "writePacket unreachable"
-				}
-				c.Check(ok, "R-C15-3", cons+"|pending+queue before write, under lock", pos(c, w),
-					sprintf("%d states at writePacket all have pendingStored, queued, locked", len(res.At[w])), why, witness(bad)...)
-			}
-			// every store to pending / queue under lock
-			// (states at the assign nodes)
-			lockedStores, stores := 0, 0
-			var badStore ast.Node
-			for n, sts := range res.At {
-				as, ok := n.(*ast.AssignStmt)
-				if !ok {
-					continue
-				}
-				touch := false
-				for _, l := range as.Lhs {
-					if ix, ok := ast.Unparen(l).(*ast.IndexExpr); ok && isFieldSel(ix.X, pendingF) {
-						touch = true
-					}
-					if isFieldSel(l, queueF) {
-						touch = true
-					}
-				}
-				if !touch {
-					continue
-				}
-				stores++
-				all := true
-				for _, st := range sts {
-					if !st.Is("ev:locked", flow.True) {
-						all = false
-					}
-				}
-				if all {
-					lockedStores++
-				} else {
-					badStore = n
-				}
-			}
-			c.RequireCount("R-C15-3", "pending/pendingQueue stores in Session.publish", stores, 2)
-			c.Check(lockedStores == stores, "R-C15-3", cons+"|stores under session lock", pos(c, f.Body),
-				sprintf("%d stores, all with the lock held", stores), "a store to pending/pendingQueue happens without the session lock", pos(c, badStore))
-		}
-		// QoS0: send on writeCh inside select with default
-		var sends []*ast.SendStmt
-		pm := parentMap(f.Body)
-		ast.Inspect(f.Body, func(n ast.Node) bool {
-			if s, ok := n.(*ast.SendStmt); ok {
-				sends = append(sends, s)
-			}
-			return true
-		})
-		for _, s := range sends {
-			nonBlocking := false
-			if cc, ok := pm[s].(*ast.CommClause); ok && cc.Comm == s {
-				if blk, ok := pm[cc].(*ast.BlockStmt); ok {
-					if sel, ok := pm[blk].(*ast.SelectStmt); ok {
-						for _, cl := range sel.Body.List {
-							if cl.(*ast.CommClause).Comm == nil {
-								nonBlocking = true
-							}
-						}
-					}
-				}
-			}
-			c.Check(nonBlocking, "R-C15-3", cons+"|direct channel send is non-blocking", pos(c, s),
-				"send is a select case with a default clause", "a direct channel send under the session lock can block forever when the client's queue is full")
-		}
-	}
-
-	// ---- Session.puback
-	if f := fn(c, mq, "Session", "puback"); f != nil {
-		cons := fname(mq, "Session", "puback")
-		pendingF := structField(c, mq, "Session", "pending")
-		var del *ast.CallExpr
-		for _, call := range calls(f.Body, false) {
-			if b, ok := f.Callee(call).(*types.Builtin); ok && b.Name() == "delete" && len(call.Args) == 2 {
-				if sel, ok := ast.Unparen(call.Args[0]).(*ast.SelectorExpr); ok {
-					if s := f.Info.Selections[sel]; s != nil && s.Obj() == pendingF {
-						del = call
-					}
-				}
-			}
-		}
-		if del == nil {
-			c.Violate("R-C15-3", cons+"|delete pending[MessageID]", pos(c, f.Body), "puback does not delete the acknowledged id from pending: the message is retransmitted forever")
-		} else {
-			// key must be <param>.MessageID
-			keyOK := false
-			if sel, ok := ast.Unparen(del.Args[1]).(*ast.SelectorExpr); ok && sel.Sel.Name == "MessageID" {
-				if id, ok := ast.Unparen(sel.X).(*ast.Ident); ok {
-					if v, ok := f.Info.Uses[id].(*types.Var); ok && isParam(f, v) {
-						keyOK = true
-					}
-				}
-			}
-			c.Check(keyOK, "R-C15-3", cons+"|delete pending[MessageID]", pos(c, del), "delete(s.pending, p.MessageID) with p the acknowledged packet", "the deleted key is not the acknowledged packet's MessageID")
-			res := analyze(c, f, flow.Config{NoHavoc: true, OnCall: func(st *flow.State, call *ast.CallExpr, callee types.Object, d bool) {
-				lockEvents(f, st, call, callee, d)
-			}})
-			if res != nil {
-				ok := len(res.At) > 0
-				var bad *flow.State
-				// the delete call is inside an ExprStmt node
-				found := false
-				for n, sts := range res.At {
-					if es, ok2 := n.(*ast.ExprStmt); ok2 && es.X == del {
-						found = true
-						for _, st := range sts {
-							// state *before* the statement
-							if !st.Is("ev:locked", flow.True) {
-								ok, bad = false, st
-							}
-						}
-					}
-				}
-				if !found {
-					c.Undecide("R-C15-3", cons+"|delete under lock", pos(c, del), "delete is not a statement of its own")
-				} else {
-					c.Check(ok, "R-C15-3", cons+"|delete under lock", pos(c, del), "session lock held at delete", "pending is mutated without the session lock", witness(bad)...)
-				}
-			}
-		}
-	}
-
-	// ---- Session.doResend
-	if f := fn(c, mq, "Session", "doResend"); f != nil {
-		cons := fname(mq, "Session", "doResend")
-		pendingF := structField(c, mq, "Session", "pending")
-		queueF := structField(c, mq, "Session", "pendingQueue")
-		writes := callsTo(f, f.Body, false, "(*"+mq+".Client).writePacket")
-		c.RequireCount("R-C15-3", "writePacket call sites in Session.doResend", len(writes), 1)
-		for _, w := range writes {
-			loops := enclosingLoops(f.Body, w)
-			var loop *ast.RangeStmt
-			if len(loops) > 0 {
-				loop, _ = loops[len(loops)-1].(*ast.RangeStmt)
-			}
-			if loop == nil {
-				c.Undecide("R-C15-3", cons+"|resend loop", pos(c, w), "writePacket is not inside a range loop")
-				continue
-			}
-			overQueue := false
-			if sel, ok := ast.Unparen(loop.X).(*ast.SelectorExpr); ok {
-				if s := f.Info.Selections[sel]; s != nil && s.Obj() == queueF {
-					overQueue = true
-				}
-			}
-			idx, _ := loop.Value.(*ast.Ident)
-			if !overQueue || idx == nil {
-				c.Violate("R-C15-3", cons+"|resend ranges over pendingQueue", pos(c, loop), "the resend loop does not range over the values of pendingQueue")
-				continue
-			}
-			idxObj := f.Info.Defs[idx]
-			// find `val, ok := s.pending[idx]` and its ok variable
-			var okVar *ast.Ident
-			ast.Inspect(loop.Body, func(n ast.Node) bool {
-				if as, ok := n.(*ast.AssignStmt); ok && len(as.Lhs) == 2 && len(as.Rhs) == 1 {
-					if ix, ok := ast.Unparen(as.Rhs[0]).(*ast.IndexExpr); ok {
-						if sel, ok := ast.Unparen(ix.X).(*ast.SelectorExpr); ok {
-							if s := f.Info.Selections[sel]; s != nil && s.Obj() == pendingF {
-								if id, ok := ast.Unparen(ix.Index).(*ast.Ident); ok && f.Info.Uses[id] == idxObj {
-									okVar, _ = as.Lhs[1].(*ast.Ident)
-								}
-							}
-						}
-					}
-				}
-				return true
-			})
-			if okVar == nil {
-				c.Violate("R-C15-3", cons+"|resend only ids still pending", pos(c, w), "no lookup `_, ok := pending[id]` guards the resend")
-				continue
-			}
-			okKey := f.VarKey(okVar)
-			// packet variable written
-			var pktObj types.Object
-			if len(w.Args) == 1 {
-				if id, ok := ast.Unparen(w.Args[0]).(*ast.Ident); ok {
-					pktObj = f.Info.Uses[id]
-				}
-			}
-			res := analyze(c, f, flow.Config{NoHavoc: true,
-				OnCall: func(st *flow.State, call *ast.CallExpr, callee types.Object, d bool) {
-					lockEvents(f, st, call, callee, d)
-				},
-				OnNode: func(st *flow.State, n ast.Node) {
-					as, ok := n.(*ast.AssignStmt)
-					if !ok || len(as.Lhs) != 1 || len(as.Rhs) != 1 {
-						return
-					}
-					sel, ok := ast.Unparen(as.Lhs[0]).(*ast.SelectorExpr)
-					if !ok || sel.Sel.Name != "MessageID" {
-						return
-					}
-					xid, ok := ast.Unparen(sel.X).(*ast.Ident)
-					if !ok || pktObj == nil || f.Info.Uses[xid] != pktObj {
-						return
-					}
-					if rid, ok := ast.Unparen(as.Rhs[0]).(*ast.Ident); ok && f.Info.Uses[rid] == idxObj {
-						st.Set("ev:sameID", flow.True)
-					} else {
-						st.Set("ev:sameID", flow.False)
-					}
-				},
-				OnBlock: func(st *flow.State, b *cfg.Block) {
-					if b.Stmt == loop && b.Kind == cfg.KindRangeBody {
-						st.Set("ev:sameID", flow.Unknown)
-					}
-				},
-			})
-			if res == nil {
-				continue
-			}
-			ok := len(res.At[w]) > 0
-			why := "writePacket unreachable"
-			var bad *flow.State
-			for _, st := range res.At[w] {
-				switch {
-				case !st.Is(okKey, flow.True):
-					ok, bad, why = false, st, "a packet is re-sent although its id is no longer in pending (retransmission after PUBACK)"
-				case !st.Is("ev:sameID", flow.True):
-					ok, bad, why = false, st, "the re-sent packet's MessageID is not the pending id"
-				case !st.Is("ev:locked", flow.True):
-					ok, bad, why = false, st, "session lock not held while resending"
-				}
-			}
-			c.Check(ok, "R-C15-3", cons+"|resend only pending ids, same id, under lock", pos(c, w),
-				sprintf("%d states at writePacket: ok-lookup true, MessageID=idx, locked", len(res.At[w])), why, witness(bad)...)
-		}
-	}
-
-	// ---- backgroundResendPending
-	if f := fn(c, mq, "Session", "backgroundResendPending"); f != nil {
-		cons := fname(mq, "Session", "backgroundResendPending")
-		rs := callsTo(f, f.Body, false, "(*"+mq+".Session).doResend")
-		okShape := false
-		detail := "no doResend call"
-		if len(rs) == 1 {
-			loops := enclosingLoops(f.Body, rs[0])
-			if len(loops) == 1 {
-				if fl, ok := loops[0].(*ast.ForStmt); ok && fl.Cond == nil {
-					// the only exits of the loop are returns inside a select case receiving from s.done
-					exits := breaksOut(f, fl, labelOf(f.Body, fl))
-					pm := parentMap(f.Body)
-					doneF := structField(c, mq, "Session", "done")
-					allDone := len(exits) > 0
-					for _, x := range exits {
-						inDone := false
-						for p := pm[x]; p != nil; p = pm[p] {
-							if cc, ok := p.(*ast.CommClause); ok && cc.Comm != nil {
-								ast.Inspect(cc.Comm, func(n ast.Node) bool {
-									if sel, ok := n.(*ast.SelectorExpr); ok {
-										if s := f.Info.Selections[sel]; s != nil && s.Obj() == doneF {
-											inDone = true
-										}
-									}
-									return true
-								})
-								break
-							}
-						}
-						if !inDone {
-							allDone = false
-							detail = "the resend loop can end for a reason other than the session's done channel: " + pos(c, x)
-						}
-					}
-					// doResend must sit in a comm clause receiving from a ticker channel
-					inTick := false
-					for p := pm[rs[0]]; p != nil; p = pm[p] {
-						if cc, ok := p.(*ast.CommClause); ok && cc.Comm != nil {
-							ast.Inspect(cc.Comm, func(n ast.Node) bool {
-								if sel, ok := n.(*ast.SelectorExpr); ok && sel.Sel.Name == "C" {
-									if tv, ok := f.Info.Types[sel.X]; ok && tv.Type.String() == "*time.Ticker" {
-										inTick = true
-									}
-								}
-								return true
-							})
-							break
-						}
-					}
-					if !inTick {
-						detail = "doResend is not driven by a ticker case"
-					}
-					okShape = allDone && inTick
-				} else {
-					detail = "resend loop is not an unconditional for loop"
-				}
-			} else {
-				detail = "doResend is not in exactly one loop"
-			}
-		}
-		c.Check(okShape, "R-C15-3", cons+"|periodic resend until done", pos(c, f.Body), "for { select { <-done: return; <-ticker.C: doResend() } }", detail)
 	}
 }
 
@@ -675,498 +161,24 @@ func isParam(f *flow.Func, v *types.Var) bool {
 	return false
 }
 
-func c15Puback(c *core.Ctx) {
-	if f := fn(c, mq, "", "processPublish"); f != nil {
-		cons := fname(mq, "", "processPublish")
-		writes := callsTo(f, f.Body, false, "(*"+mq+".Client).writePacket")
-		// the variable holding the incoming publish packet: assigned from a type assertion of a parameter
-		var inObj types.Object
-		ast.Inspect(f.Body, func(n ast.Node) bool {
-			if as, ok := n.(*ast.AssignStmt); ok && len(as.Lhs) == 1 && len(as.Rhs) == 1 {
-				if ta, ok := ast.Unparen(as.Rhs[0]).(*ast.TypeAssertExpr); ok {
-					if id, ok := ast.Unparen(ta.X).(*ast.Ident); ok {
-						if v, ok := f.Info.Uses[id].(*types.Var); ok && isParam(f, v) {
-							if lid, ok := as.Lhs[0].(*ast.Ident); ok {
-								inObj = f.Info.Defs[lid]
-							}
-						}
-					}
-				}
-			}
-			return true
-		})
-		if inObj == nil {
-			c.Undecide("R-C15-4", cons+"|incoming packet", pos(c, f.Body), "cannot identify the incoming publish packet variable")
-		} else {
-			qosKey := "eq:" + inObj.Name() // prefix match below
-			_ = qosKey
-			res := analyze(c, f, flow.Config{NoHavoc: true,
-				OnNode: func(st *flow.State, n ast.Node) {
-					as, ok := n.(*ast.AssignStmt)
-					if !ok || len(as.Lhs) != 1 || len(as.Rhs) != 1 {
-						return
-					}
-					l, ok1 := ast.Unparen(as.Lhs[0]).(*ast.SelectorExpr)
-					r, ok2 := ast.Unparen(as.Rhs[0]).(*ast.SelectorExpr)
-					if ok1 && l.Sel.Name == "MessageID" {
-						same := false
-						if ok2 && r.Sel.Name == "MessageID" {
-							if id, ok := ast.Unparen(r.X).(*ast.Ident); ok && f.Info.Uses[id] == inObj {
-								same = true
-							}
-						}
-						if lid, ok := ast.Unparen(l.X).(*ast.Ident); ok {
-							st.Set("ev:idEcho:"+f.Render(lid), flow.Val(map[bool]flow.Val{true: flow.True, false: flow.False}[same]))
-						}
-					}
-				},
-			})
-			if res != nil {
-				// QoS1 ⇒ a Puback is written with the echoed id: every return state with
-				// publish.Qos == 1 must have passed a writePacket with idEcho=T
-				n := 0
-				for _, w := range writes {
-					arg, _ := ast.Unparen(w.Args[0]).(*ast.Ident)
-					tv := f.Info.Types[w.Args[0]]
-					if arg == nil || tv.Type == nil || tv.Type.String() != "*github.com/eclipse/paho.mqtt.golang/packets.PubackPacket" {
-						continue
-					}
-					n++
-					ok := len(res.At[w]) > 0
-					var bad *flow.State
-					for _, st := range res.At[w] {
-						if !st.Is("ev:idEcho:"+f.Render(arg), flow.True) {
-							ok, bad = false, st
-						}
-					}
-					c.Check(ok, "R-C15-4", cons+"|puback carries incoming MessageID", pos(c, w), "puback.MessageID = publish.MessageID precedes writePacket(puback)",
-						"the Puback written does not carry the incoming packet's MessageID", witness(bad)...)
-				}
-				if n == 0 {
-					c.Violate("R-C15-4", cons+"|puback carries incoming MessageID", pos(c, f.Body), "no Puback is written by processPublish")
-				}
-				// the puback write must happen exactly on the QoS1 case: find switch case QoS1
-				qos1 := false
-				ast.Inspect(f.Body, func(nd ast.Node) bool {
-					if sw, ok := nd.(*ast.SwitchStmt); ok && sw.Tag != nil {
-						if sel, ok := ast.Unparen(sw.Tag).(*ast.SelectorExpr); ok && sel.Sel.Name == "Qos" {
-							for _, cl := range sw.Body.List {
-								cc := cl.(*ast.CaseClause)
-								for _, x := range cc.List {
-									if v, ok := f.Info.Types[x]; ok && v.Value != nil && v.Value.ExactString() == "1" {
-										for _, w := range writes {
-											if contains(cc, w) {
-												qos1 = true
-											}
-										}
-									}
-								}
-							}
-						}
-					}
-					return true
-				})
-				c.Check(qos1, "R-C15-4", cons+"|QoS1 case writes the puback", pos(c, f.Body), "case QoS1 contains the puback write", "the QoS 1 case of processPublish does not write a Puback")
-			}
-		}
-	}
+func c15(c *core.Ctx) string {
+	c.Rule("R-C15-1", "fan-out loop of the subscriber delivery function has no early exit: inside the range loop over the subscriber map no return/break/goto/panic leaves the loop; every iteration either publishes, or skips because subscription QoS < message QoS, or because the client is not connected")
+	c.Rule("R-C15-2", "per-subscriber skip condition is exactly (subscription QoS < message QoS): publish is reached only with that atom false, and an iteration without publish has it true or a nil client")
+	c.Rule("R-C15-3", "QoS1 bookkeeping in Session.publish/puback/doResend: pending[id] store and queue append precede writePacket under the session lock; QoS0 send is non-blocking; puback deletes pending[MessageID] under the lock; doResend re-sends only ids still pending, with the same id, under the lock; the resend loop runs doResend on every tick until done")
+	c.Rule("R-C15-4", "PUBACK echo and handler order: processPublish's QoS1 branch writes a Puback whose MessageID is the incoming packet's; the publish entry of the packet table runs limiter, then pipeline, then processPublish; pipelineWrapper calls fn unless the pipeline failed")
+	c.NotDecided = []string{"socket-level delivery", "timing of retransmission", "queue-full drops of QoS0 copies", "findSubscribers correctness (C14)"}
 
-	// pipelineWrapper: fn(c,p) is called iff runPipeline returned nil
-	if f := fn(c, mq, "", "pipelineWrapper"); f != nil {
-		cons := fname(mq, "", "pipelineWrapper")
-		var lit *ast.FuncLit
-		ast.Inspect(f.Body, func(n ast.Node) bool {
-			if l, ok := n.(*ast.FuncLit); ok && lit == nil {
-				lit = l
-				return false
-			}
-			return true
-		})
-		if lit == nil {
-			c.Undecide("R-C15-4", cons+"|closure", pos(c, f.Body), "no closure returned")
-		} else {
-			lf := f.Lit(lit)
-			// fn param of outer function
-			var fnObj types.Object
-			if f.Type.Params != nil && len(f.Type.Params.List) > 0 && len(f.Type.Params.List[0].Names) > 0 {
-				fnObj = f.Info.Defs[f.Type.Params.List[0].Names[0]]
-			}
-			var fnCall, runCall *ast.CallExpr
-			for _, call := range calls(lit.Body, false) {
-				if id, ok := ast.Unparen(call.Fun).(*ast.Ident); ok && f.Info.Uses[id] == fnObj {
-					fnCall = call
-				}
-				if calleeIs(f, call, "(*"+mq+".Client).runPipeline") {
-					runCall = call
-				}
-			}
-			if fnCall == nil || runCall == nil {
-				c.Violate("R-C15-4", cons+"|pipeline then process", pos(c, lit), "the wrapper does not call both the pipeline and the wrapped processing function")
-			} else {
-				var errKey string
-				ast.Inspect(lit.Body, func(n ast.Node) bool {
-					if as, ok := n.(*ast.AssignStmt); ok && len(as.Rhs) == 1 && as.Rhs[0] == runCall && len(as.Lhs) == 1 {
-						errKey = lf.NilKey(as.Lhs[0])
-					}
-					return true
-				})
-				res := analyze(c, lf, flow.Config{NoHavoc: true,
-					OnCall: func(st *flow.State, call *ast.CallExpr, callee types.Object, d bool) {
-						if call == fnCall {
-							st.Set("ev:processed", flow.True)
-						}
-					}})
-				if res != nil && errKey != "" {
-					ok := true
-					var bad *flow.State
-					why := ""
-					for _, st := range res.At[fnCall] {
-						if !st.Is(errKey, flow.True) {
-							ok, bad, why = false, st, "the processing function runs although the pipeline rejected the packet"
-						}
-					}
-					for _, ex := range res.Exits {
-						if ex.Kind == flow.ExitReturn && ex.State.Is(errKey, flow.True) && !ex.State.Is("ev:processed", flow.True) {
-							ok, bad, why = false, ex.State, "the pipeline accepted the packet but the processing function (PUBACK) is skipped"
-						}
-					}
-					c.Check(ok, "R-C15-4", cons+"|process iff pipeline accepted", pos(c, fnCall), "fn(c,p) reached exactly on the err==nil edge of runPipeline", why, witness(bad)...)
-				} else if res != nil {
-					c.Undecide("R-C15-4", cons+"|process iff pipeline accepted", pos(c, lit), "runPipeline result is not assigned to a variable")
-				}
-			}
-		}
+	c.Rule("R-C15-5", "every live session has a resend loop: each function that builds a Session starts `go s.backgroundResendPending()` on every path that returns the session (or each of its direct callers does so for the returned session)")
+	c.Rule("R-C15-6", "a registered client is removed from the broker's client table only when it is known to be disconnected (or has just been closed, or no entry exists): a live connection must stay addressable for delivery")
+	e := c15resolve(c)
+	if e == nil {
+		return "anchors of the MQTT delivery path could not be resolved"
 	}
-
-	// packet table: the publish entry runs limiter → pipelineWrapper(processPublish, Publish)
-	pkg := c.Prog.Pkg(mq)
-	if pkg == nil {
-		return
-	}
-	var entry *ast.FuncLit
-	for _, file := range pkg.Syntax {
-		for _, d := range file.Decls {
-			gd, ok := d.(*ast.GenDecl)
-			if !ok || gd.Tok != token.VAR {
-				continue
-			}
-			for _, sp := range gd.Specs {
-				vs := sp.(*ast.ValueSpec)
-				for i, n := range vs.Names {
-					if n.Name != "processPacketMap" || i >= len(vs.Values) {
-						continue
-					}
-					if cl, ok := vs.Values[i].(*ast.CompositeLit); ok {
-						for _, el := range cl.Elts {
-							kv, ok := el.(*ast.KeyValueExpr)
-							if !ok {
-								continue
-							}
-							if bl, ok := kv.Key.(*ast.BasicLit); ok && bl.Value == `"*packets.PublishPacket"` {
-								entry, _ = kv.Value.(*ast.FuncLit)
-								if entry == nil {
-									// direct wrapper without limiter
-									c.Violate("R-C15-4", mq+".processPacketMap|publish entry order", pos(c, kv.Value), "the publish entry is not a closure running the publish limiter first")
-								}
-							}
-						}
-					}
-				}
-			}
-		}
-	}
-	cons := mq + ".processPacketMap[publish]"
-	if entry == nil {
-		c.Errorf("R-C15-4: anchor: publish entry of processPacketMap not found")
-		return
-	}
-	base := &flow.Func{Pkg: pkg, Info: pkg.TypesInfo, Fset: pkg.Fset, Name: cons, Node: entry, Body: entry.Body, Type: entry.Type}
-	var limit, wrapInner, wrapOuter *ast.CallExpr
-	for _, call := range calls(entry.Body, false) {
-		if calleeIs(base, call, "(*"+mq+".Client).checkPublishLimit") {
-			limit = call
-		}
-		if calleeIs(base, call, mq+".pipelineWrapper") {
-			wrapInner = call
-		}
-		if inner, ok := ast.Unparen(call.Fun).(*ast.CallExpr); ok && calleeIs(base, inner, mq+".pipelineWrapper") {
-			wrapOuter = call
-		}
-	}
-	if limit == nil || wrapInner == nil || wrapOuter == nil {
-		c.Violate("R-C15-4", cons+"|limiter then pipeline then process", pos(c, entry), "the publish entry does not call checkPublishLimit and pipelineWrapper(...)(c, packet)")
-		return
-	}
-	argOK := false
-	if len(wrapInner.Args) == 2 {
-		if id, ok := ast.Unparen(wrapInner.Args[0]).(*ast.Ident); ok && id.Name == "processPublish" {
-			if _, ok := base.Info.Uses[id].(*types.Func); ok {
-				argOK = true
-			}
-		}
-	}
-	c.Check(argOK, "R-C15-4", cons+"|wrapper wraps processPublish", pos(c, wrapInner), "pipelineWrapper(processPublish, Publish)", "the publish entry does not hand the packet to processPublish")
-	limKey := base.CallKey(limit)
-	res := analyze(c, base, flow.Config{NoHavoc: true})
-	if res != nil {
-		ok := len(res.At) > 0
-		var bad *flow.State
-		why := ""
-		reached := false
-		for n, sts := range res.At {
-			rs, isRet := n.(*ast.ReturnStmt)
-			if !isRet || !contains(rs, wrapOuter) {
-				continue
-			}
-			reached = true
-			for _, st := range sts {
-				if !st.Is(limKey, flow.True) {
-					ok, bad, why = false, st, "the pipeline/process step is reachable without the publish limiter having admitted the packet"
-				}
-			}
-		}
-		for _, ex := range res.Exits {
-			if ex.Return != nil && !contains(ex.Return, wrapOuter) && ex.State.Is(limKey, flow.True) {
-				ok, bad, why = false, ex.State, "a packet admitted by the limiter is dropped without pipeline/process"
-			}
-		}
-		if !reached {
-			ok, why = false, "pipelineWrapper(...)(c, packet) is not returned"
-		}
-		c.Check(ok, "R-C15-4", cons+"|limiter then pipeline then process", pos(c, wrapOuter), "wrapper call reached exactly on checkPublishLimit = true", why, witness(bad)...)
-	}
-}
-
-// c15ResendLoop: R-C15-5.
-func c15ResendLoop(c *core.Ctx) {
-	pkg := c.Prog.Pkg(mq)
-	if pkg == nil {
-		return
-	}
-	sessT := namedType(c, mq, "Session")
-	if sessT == nil {
-		return
-	}
-	isResendGo := func(f *flow.Func, n ast.Node, obj types.Object) bool {
-		gs, ok := n.(*ast.GoStmt)
-		if !ok || !calleeIs(f, gs.Call, "(*"+mq+".Session).backgroundResendPending") {
-			return false
-		}
-		sel, ok := ast.Unparen(gs.Call.Fun).(*ast.SelectorExpr)
-		if !ok {
-			return false
-		}
-		// receiver is the variable, or a field path ending in a *Session assigned from it
-		root := sel.X
-		if id, ok := ast.Unparen(root).(*ast.Ident); ok {
-			return f.Info.Uses[id] == obj
-		}
-		return false
-	}
-	// startsFor: does f, on every path returning variable obj non-nil, start the loop for it?
-	startsFor := func(f *flow.Func, obj types.Object) (bool, *flow.State) {
-		res := analyze(c, f, flow.Config{NoHavoc: true, OnNode: func(st *flow.State, n ast.Node) {
-			if isResendGo(f, n, obj) {
-				st.Set("ev:resend", flow.True)
-			}
-		}})
-		if res == nil {
-			return false, nil
-		}
-		for _, ex := range res.Exits {
-			if ex.Kind != flow.ExitReturn || ex.Return == nil {
-				continue
-			}
-			returnsIt := false
-			for _, r := range ex.Return.Results {
-				if id, ok := ast.Unparen(r).(*ast.Ident); ok && f.Info.Uses[id] == obj {
-					returnsIt = true
-				}
-			}
-			if returnsIt && !ex.State.Is("ev:resend", flow.True) {
-				return false, ex.State
-			}
-		}
-		return true, nil
-	}
-	ctors := 0
-	for _, file := range pkg.Syntax {
-		for _, d := range file.Decls {
-			fd, ok := d.(*ast.FuncDecl)
-			if !ok || fd.Body == nil {
-				continue
-			}
-			f := flow.NewFunc(pkg, fd)
-			// variable assigned &Session{}
-			var obj types.Object
-			ast.Inspect(fd.Body, func(n ast.Node) bool {
-				as, ok := n.(*ast.AssignStmt)
-				if !ok || len(as.Lhs) != 1 || len(as.Rhs) != 1 {
-					return true
-				}
-				lit := litOf(as.Rhs[0])
-				if lit == nil {
-					return true
-				}
-				if tv, ok := f.Info.Types[lit]; ok && types.Identical(tv.Type, sessT) {
-					if id, ok := as.Lhs[0].(*ast.Ident); ok {
-						obj = f.Info.Defs[id]
-					}
-				}
-				return true
-			})
-			if obj == nil {
-				continue
-			}
-			ctors++
-			cons := declName(pkg, fd) + "|resend loop started for the new session"
-			ok, bad := startsFor(f, obj)
-			if ok {
-				c.Discharge("R-C15-5", cons, pos(c, fd), "go s.backgroundResendPending() on every path returning the session")
-				continue
-			}
-			// one level of callers
-			callersOK, ncallers := true, 0
-			var badCaller string
-			fnObj := pkg.TypesInfo.Defs[fd.Name]
-			for _, file2 := range pkg.Syntax {
-				for _, d2 := range file2.Decls {
-					fd2, ok := d2.(*ast.FuncDecl)
-					if !ok || fd2.Body == nil {
-						continue
-					}
-					f2 := flow.NewFunc(pkg, fd2)
-					for _, call := range calls(fd2.Body, false) {
-						if f2.Callee(call) != fnObj {
-							continue
-						}
-						ncallers++
-						// result must be bound to a variable for which the loop is started
-						var robj types.Object
-						ast.Inspect(fd2.Body, func(n ast.Node) bool {
-							if as, ok := n.(*ast.AssignStmt); ok && len(as.Rhs) == 1 && as.Rhs[0] == call && len(as.Lhs) == 1 {
-								if id, ok := as.Lhs[0].(*ast.Ident); ok {
-									robj = f2.Info.Defs[id]
-									if robj == nil {
-										robj = f2.Info.Uses[id]
-									}
-								}
-							}
-							return true
-						})
-						started := false
-						if robj != nil {
-							ast.Inspect(fd2.Body, func(n ast.Node) bool {
-								if isResendGo(f2, n, robj) {
-									started = true
-								}
-								return true
-							})
-						}
-						if !started {
-							callersOK = false
-							badCaller = declName(pkg, fd2)
-						}
-					}
-				}
-			}
-			if callersOK && ncallers > 0 {
-				c.Discharge("R-C15-5", cons, pos(c, fd), "started by every direct caller")
-			} else {
-				c.Violate("R-C15-5", cons, pos(c, fd), "a Session is created without its resend loop: unacknowledged QoS1 messages of that session are never retransmitted (not started here"+
-					map[bool]string{true: ", nor in caller " + badCaller, false: ""}[badCaller != ""]+")", witness(bad)...)
-			}
-		}
-	}
-	c.RequireCount("R-C15-5", "functions building a Session", ctors, 2)
-}
-
-// c15Registry: R-C15-6.
-func c15Registry(c *core.Ctx) {
-	pkg := c.Prog.Pkg(mq)
-	clientsF := structField(c, mq, "Broker", "clients")
-	if pkg == nil || clientsF == nil {
-		return
-	}
-	sites := 0
-	for _, file := range pkg.Syntax {
-		for _, d := range file.Decls {
-			fd, ok := d.(*ast.FuncDecl)
-			if !ok || fd.Body == nil {
-				continue
-			}
-			f := flow.NewFunc(pkg, fd)
-			isClients := func(e ast.Expr) bool {
-				sel, ok := ast.Unparen(e).(*ast.SelectorExpr)
-				if !ok {
-					return false
-				}
-				s := f.Info.Selections[sel]
-				return s != nil && s.Obj() == clientsF
-			}
-			var dels []*ast.CallExpr
-			for _, call := range calls(fd.Body, false) {
-				if b, ok := f.Callee(call).(*types.Builtin); ok && b.Name() == "delete" && len(call.Args) == 2 && isClients(call.Args[0]) {
-					dels = append(dels, call)
-				}
-			}
-			if len(dels) == 0 {
-				continue
-			}
-			// lookups `val, ok := b.clients[k]`
-			type lookup struct {
-				key     string
-				val, ok *ast.Ident
-			}
-			var lookups []lookup
-			ast.Inspect(fd.Body, func(n ast.Node) bool {
-				if as, ok := n.(*ast.AssignStmt); ok && len(as.Lhs) == 2 && len(as.Rhs) == 1 {
-					if ix, ok := ast.Unparen(as.Rhs[0]).(*ast.IndexExpr); ok && isClients(ix.X) {
-						v, _ := as.Lhs[0].(*ast.Ident)
-						o, _ := as.Lhs[1].(*ast.Ident)
-						if v != nil && o != nil {
-							lookups = append(lookups, lookup{f.Render(ix.Index), v, o})
-						}
-					}
-				}
-				return true
-			})
-			res := analyze(c, f, flow.Config{NoHavoc: true, OnCall: func(st *flow.State, call *ast.CallExpr, callee types.Object, deferred bool) {
-				if calleeIs(f, call, "(*"+mq+".Client).close") {
-					if sel, ok := ast.Unparen(call.Fun).(*ast.SelectorExpr); ok {
-						st.Set("ev:closed:"+f.Render(sel.X), flow.True)
-					}
-				}
-			}})
-			if res == nil {
-				continue
-			}
-			for _, del := range dels {
-				sites++
-				cons := declName(pkg, fd) + "|delete from Broker.clients"
-				k := f.Render(del.Args[1])
-				var lk *lookup
-				for i := range lookups {
-					if lookups[i].key == k {
-						lk = &lookups[i]
-					}
-				}
-				if lk == nil {
-					c.Violate("R-C15-6", cons, pos(c, del), "the client table entry is deleted without looking at the registered client: after a take-over the stale connection's teardown removes the new, live connection, which then receives no messages")
-					continue
-				}
-				discKey := "call:" + f.Render(lk.val) + ".disconnected()"
-				var bad *flow.State
-				for _, st := range res.At[del] {
-					if st.Is(f.VarKey(lk.ok), flow.False) || st.Is(discKey, flow.True) || st.Is("ev:closed:"+f.Render(lk.val), flow.True) {
-						continue
-					}
-					bad = st
-				}
-				c.Check(bad == nil, "R-C15-6", cons, pos(c, del), sprintf("%d states: entry absent, registered client disconnected, or just closed", len(res.At[del])),
-					"the client table entry is deleted although the registered client may be a live connection (after a take-over the new connection is dropped from delivery)", witness(bad)...)
-			}
-		}
-	}
-	c.RequireCount("R-C15-6", "delete(Broker.clients, id) sites", sites, 2)
+	c15FanOut(e)
+	c15Session(e)
+	c15Puback(e)
+	c15ResendLoop(e)
+	c15Registry(e)
+	c15QueueWriters(e)
+	return "Static shape rules on the MQTT delivery path (anchors resolved by role, helpers followed by reach + inlining): the fan-out loop cannot be left early and publishes iff subQoS >= qos and the client is connected (path-sensitive, all paths of the delivery loop); QoS1 pending bookkeeping precedes the write under the session lock; PUBACK carries the incoming id; handler order limiter→pipeline→process. Not decided: socket delivery, retransmission timing, queue-full drops."
 }
